@@ -190,6 +190,13 @@ func gen(r *vu.Rng, i int) []string {
 		b := genLoopBuf(r)
 		h := vu.Hex(b)
 		return []string{fmt.Sprintf("uname %s 0", h), fmt.Sprintf("sname %s 0", h)}
+	case k < 36: // nested names, packed WITHOUT compression: accepted, but the re-pack compresses them
+		if m, ok := parseMessage(strings.Fields(genChainMessage(r, r.Range(9, 14)))); ok {
+			if b, err := buildWith(m, false, 0); err == nil {
+				return msgOps(b, r)
+			}
+		}
+		return msgOps(packValid(r), r)
 	case k < 45: // valid message, unmutated
 		return msgOps(packValid(r), r)
 	case k < 90:
